@@ -39,16 +39,45 @@ type zzvRd struct {
 }
 
 type zzvStState struct {
-	St     map[string]string `json:"st"`
-	Reg    map[string]bool   `json:"reg"`
-	Buf    map[string][]int  `json:"buf"`
-	Lfin   map[string]bool   `json:"lfin"`
-	Rfin   map[string]bool   `json:"rfin"`
-	Closed map[string]bool   `json:"closed"`
-	Rd     map[string]zzvRd  `json:"rd"`
-	Fh     struct {
-		Pc string `json:"pc"`
-	} `json:"fh"`
+	St     map[string]string
+	Reg    map[string]bool
+	Buf    map[string][]int
+	Lfin   map[string]bool
+	Rfin   map[string]bool
+	Closed map[string]bool
+	Rd     map[string]zzvRd
+	Fh     struct{ Pc string }
+}
+
+// UnmarshalJSON decodes the compact positional encoding emitted by Stream.tla (operator Packed):
+//   {"a": [st, reg, buf, lfin, rfin, closed, rd.pc, rd.chunk, rd.eof, rd.torn, nreads, nsent, arrived, finSeen,
+//          delivered, lost], "b": [...], "fh": [pc, s, k, fin], "nf": nframes}
+func (s *zzvStState) UnmarshalJSON(b []byte) error {
+	var raw struct {
+		A  []any `json:"a"`
+		B  []any `json:"b"`
+		Fh []any `json:"fh"`
+	}
+	if err := json.Unmarshal(b, &raw); err != nil {
+		return err
+	}
+	if len(raw.A) != 16 || len(raw.B) != 16 || len(raw.Fh) != 4 {
+		return fmt.Errorf("zzv: unexpected packed state %s", string(b))
+	}
+	*s = zzvStState{St: map[string]string{}, Reg: map[string]bool{}, Buf: map[string][]int{}, Lfin: map[string]bool{},
+		Rfin: map[string]bool{}, Closed: map[string]bool{}, Rd: map[string]zzvRd{}}
+	for n, v := range map[string][]any{"a": raw.A, "b": raw.B} {
+		s.St[n] = v[0].(string)
+		s.Reg[n] = v[1].(bool)
+		s.Buf[n] = []int{}
+		for _, x := range v[2].([]any) {
+			s.Buf[n] = append(s.Buf[n], int(x.(float64)))
+		}
+		s.Lfin[n], s.Rfin[n], s.Closed[n] = v[3].(bool), v[4].(bool), v[5].(bool)
+		s.Rd[n] = zzvRd{Pc: v[6].(string), Chunk: int(v[7].(float64)), Eof: v[8].(bool), Torn: v[9].(bool)}
+	}
+	s.Fh.Pc = raw.Fh[0].(string)
+	return nil
 }
 
 // what is observable on the real objects (and the same projection of a spec state)
@@ -92,18 +121,20 @@ type zzvStAct struct {
 	Torn  map[string]bool `json:"torn"`
 }
 
+// compact path document written by checks/_replay.py: states are stored once and referenced by index
 type zzvStStep struct {
 	A json.RawMessage `json:"a"`
-	T json.RawMessage `json:"t"`
+	T int             `json:"t"`
 }
 
 type zzvStPath struct {
-	Init  json.RawMessage `json:"init"`
-	Steps []zzvStStep     `json:"steps"`
+	Init  int         `json:"init"`
+	Steps []zzvStStep `json:"steps"`
 }
 
 type zzvStIn struct {
-	Paths []zzvStPath `json:"paths"`
+	States []json.RawMessage `json:"states"`
+	Paths  []zzvStPath       `json:"paths"`
 }
 
 type zzvReadRes struct {
@@ -536,10 +567,10 @@ func TestZZVStreamReplay(t *testing.T) {
 	for pi, path := range in.Paths {
 		r := zzvNewRig(t)
 		var init zzvStState
-		if err := json.Unmarshal(path.Init, &init); err != nil {
+		if err := json.Unmarshal(in.States[path.Init], &init); err != nil {
 			t.Fatal(err)
 		}
-		prevRaw := path.Init
+		prevRaw := in.States[path.Init]
 		if real := r.project(); !zzvSameProj(real, init.proj()) {
 			mism++
 			zzvEmit("mismatch", map[string]any{"path": pi, "step": -1, "why": "initial state", "real_t": real, "spec_proj": init.proj()})
@@ -552,7 +583,7 @@ func TestZZVStreamReplay(t *testing.T) {
 			if err := json.Unmarshal(st.A, &a); err != nil {
 				t.Fatal(err)
 			}
-			if err := json.Unmarshal(st.T, &want); err != nil {
+			if err := json.Unmarshal(in.States[st.T], &want); err != nil {
 				t.Fatal(err)
 			}
 			res, chunk, torn := r.apply(a)
@@ -575,12 +606,12 @@ func TestZZVStreamReplay(t *testing.T) {
 			}
 			if res != a.Res || chunk != a.Chunk || !okTorn || !zzvSameProj(real, wp) {
 				mism++
-				zzvEmit("mismatch", map[string]any{"path": pi, "step": si, "s": prevRaw, "a": st.A, "spec_t": st.T,
+				zzvEmit("mismatch", map[string]any{"path": pi, "step": si, "s": prevRaw, "a": st.A, "spec_t": in.States[st.T],
 					"spec_proj": wp, "real_t": real, "spec_res": a.Res, "real_res": res, "spec_chunk": a.Chunk,
 					"real_chunk": chunk, "spec_torn": a.Torn, "real_torn": torn, "prefix": zzvActs(path.Steps[:si+1])})
 				break
 			}
-			prevRaw = st.T
+			prevRaw = in.States[st.T]
 		}
 		r.destroy()
 	}
@@ -596,4 +627,3 @@ func zzvActs(steps []zzvStStep) []json.RawMessage {
 	return out
 }
 
-var _ = fmt.Sprintf
